@@ -7,7 +7,7 @@ from ..core import D, M128, Server, to_limbs, sub_rng, run_check
 from . import _w
 
 PROP = "C06"
-WEIGHTS = {"swap": 50, "swap_window": 10, "route": 4, "provide": 10, "withdraw": 6, "donate": 6, "swap_malformed": 0,
+WEIGHTS = {"swap": 50, "swap_window": 10, "route": 4, "provide": 10, "withdraw": 6, "donate": 6, "swap_malformed": 8,
            "provide_malformed": 0, "unauth": 0, "transfer": 0, "lp_transfer": 0, "lp_burn": 1, "route_bad": 0,
            "intent": 2, "add_decimals": 0}
 
